@@ -18,7 +18,21 @@ enum A {
 
 /// run the whole action list in one form; snapshot = (probe, probe2) traces
 /// after every action
-fn run_form(pipe: &Pipe, form: Form, acts: &[A], second_sub: bool) -> Vec<(Vec<Note>, Vec<Note>)> {
+/// user-visible side effects: (source closure calls, iterator pulls, tap calls, finalizer runs, inner subscriptions)
+type Fx = (usize, usize, usize, usize, usize);
+
+fn fx(r: &Run) -> Fx {
+  let c = &r.cx.ctr;
+  (
+    Counters::get(&c.src_calls),
+    Counters::get(&c.pulls),
+    Counters::get(&c.taps),
+    Counters::get(&c.finals),
+    Counters::get(&c.inner_subs),
+  )
+}
+
+fn run_form(pipe: &Pipe, form: Form, acts: &[A], second_sub: bool) -> Vec<(Vec<Note>, Vec<Note>, Fx)> {
   let n_in = pipe.n_inputs().max(1);
   let timed = pipe.uses_time();
   let mut r = Run::prepare(n_in, form);
@@ -29,7 +43,7 @@ fn run_form(pipe: &Pipe, form: Form, acts: &[A], second_sub: bool) -> Vec<(Vec<N
     _s2 = r.subscribe_probe(pipe, p2.clone());
   }
   r.drain();
-  let mut snaps = vec![(r.probe.notes(), p2.notes())];
+  let mut snaps = vec![(r.probe.notes(), p2.notes(), fx(&r))];
   for a in acts {
     match a {
       A::In(i, n) => {
@@ -44,12 +58,12 @@ fn run_form(pipe: &Pipe, form: Form, acts: &[A], second_sub: bool) -> Vec<(Vec<N
         r.drain();
       }
     }
-    snaps.push((r.probe.notes(), p2.notes()));
+    snaps.push((r.probe.notes(), p2.notes(), fx(&r)));
   }
   if timed {
     for _ in 0..3 {
       r.tick();
-      snaps.push((r.probe.notes(), p2.notes()));
+      snaps.push((r.probe.notes(), p2.notes(), fx(&r)));
     }
   }
   snaps
@@ -84,13 +98,15 @@ fn diff_job(pipe: Pipe, len: usize, second_sub: bool) -> Job {
         obs.fail(
           format!("c18:diverge:{}", super::c01::sig(&pipe)),
           format!(
-            "{} after {:?}: local [{}]{} but thread-safe form [{}]{}",
+            "{} after {:?}: local [{}]{} side effects {:?} but thread-safe form [{}]{} side effects {:?} (source closure calls, iterator pulls, tap calls, finalizer runs, inner subscriptions)",
             pipe.show(),
             &acts[..i.min(acts.len())],
             fmt_notes(&a.0),
             if second_sub { format!(" / [{}]", fmt_notes(&a.1)) } else { String::new() },
+            a.2,
             fmt_notes(&b.0),
             if second_sub { format!(" / [{}]", fmt_notes(&b.1)) } else { String::new() },
+            b.2,
           ),
         );
         break;
@@ -113,10 +129,12 @@ fn cold_diff_job(pipe: Pipe) -> Job {
       obs.fail(
         format!("c18:diverge:{}", super::c01::sig(&pipe)),
         format!(
-          "{}: local [{}] but thread-safe form [{}]",
+          "{}: local [{}] side effects {:?} but thread-safe form [{}] side effects {:?} (source closure calls, iterator pulls, tap calls, finalizer runs, inner subscriptions)",
           pipe.show(),
           fmt_notes(&l.last().unwrap().0),
-          fmt_notes(&t.last().unwrap().0)
+          l.last().unwrap().2,
+          fmt_notes(&t.last().unwrap().0),
+          t.last().unwrap().2
         ),
       );
     }
@@ -255,6 +273,20 @@ pub fn plan(tier: Tier) -> Plan {
       jobs.push(cold_diff_job(p));
     }
   }
+  // a second input that is subscribed for a subscriber which has already
+  // finished (the cold first input satisfied take(1)): whether it is subscribed at
+  // all shows only in its side effects
+  for op2 in Op2::ALL {
+    for x in [
+      Pipe::S(Src::OfFn(1)),
+      Pipe::S(Src::Defer(Box::new(Src::Iter(vec![0, 1])))),
+      Pipe::S(Src::IterCount(3)).o1(Op1::Tap),
+      Pipe::S(Src::IntoIter(vec![0, 1])).o1(Op1::Finalize),
+    ] {
+      n_pipes += 1;
+      jobs.push(cold_diff_job(Pipe::S(Src::Of(7)).o2(op2, x).o1(Op1::Take(1))));
+    }
+  }
   for first in 0..7 {
     jobs.push(behavior_diff_job(if tier == Tier::Quick { 6 } else { 7 }).root(vec![first]));
   }
@@ -264,7 +296,7 @@ pub fn plan(tier: Tier) -> Plan {
       prop: "C18".into(),
       tier: tier_name(tier),
       engine: "E1 opseq".into(),
-      rule: "every pipeline of the C01 generator is instantiated twice from the same AST — all-local (Subject, Subscriber, BoxOp, merge, ...) and all-thread-safe (SubjectThreads, SubscriberThreads, BoxOpThreads, merge_threads, ...) — and both are driven single-threaded through every action history up to the length bound over {next(0), next(1), complete, error per input, tick, unsubscribe (once)}; the probe traces (and those of a second subscriber for share) must be identical after every action (pure differential oracle); likewise BehaviorSubject over Subject vs over SubjectThreads on every operation sequence incl. a subscriber that peeks from inside its callback (a form that does not return is a divergence); non-trivial = something was delivered".into(),
+      rule: "every pipeline of the C01 generator is instantiated twice from the same AST — all-local (Subject, Subscriber, BoxOp, merge, ...) and all-thread-safe (SubjectThreads, SubscriberThreads, BoxOpThreads, merge_threads, ...) — and both are driven single-threaded through every action history up to the length bound over {next(0), next(1), complete, error per input, tick, unsubscribe (once)}; the probe traces (and those of a second subscriber for share) and the user-visible side-effect counters (source closure calls, iterator pulls, tap calls, finalizer runs, inner subscriptions) must be identical after every action (pure differential oracle); likewise BehaviorSubject over Subject vs over SubjectThreads on every operation sequence incl. a subscriber that peeks from inside its callback (a form that does not return is a divergence); non-trivial = something was delivered".into(),
       bounds: json!({"chain_depth": depth, "history_len_chains": len, "history_len_two_input": len2, "pipelines": n_pipes}),
       assumptions: vec!["FIFO-prompt executor in both instantiations".into()],
     },
